@@ -350,8 +350,8 @@ def parseResponse (cfg : Cfg) (lines : List Bytes) : Except Err Msg :=
       | none => .error .badStatusLine
       | some (vmaj, vmin) =>
         if status.length != 3 || !status.all isDigitB then .error .badStatusLine else
-        -- strict mode: no control character (in particular no bare LF) in the reason-phrase
-        if !cfg.lax && reason.any valueForbidden then .error .badStatusLine else
+        -- strict mode: no control character (in particular no bare LF) anywhere in the status line
+        if !cfg.lax && line.any valueForbidden then .error .badStatusLine else
         let code := status.foldl (fun a b => a * 10 + (b.toNat - 48)) 0
         match parseHeaders cfg.lax cfg.maxField rest with
         | .error e => .error e
